@@ -46,7 +46,9 @@ func init() {
 
 // FeeRateGrid: boundary values; whether a value is accepted is decided by the chain itself (governance
 // message result / the module's ValidateGenesis), never by the harness.
-var FeeRateGrid = []string{"", "0", "0.0", "0.000001", "0.5", "1", "1.5", "0.333333333333333333333333333333333333", "-0.1", "abc", "1e-3"}
+var FeeRateGrid = []string{"", "0", "0.0", "0.000001", "0.5", "1", "1.5", "0.333333333333333333333333333333333333", "0.0212345678901", "0.0300000000000000001", "-0.1", "abc", "1e-3",
+	// spellings a lenient validator might normalise but the settlement code would not
+	" 0.02", "0.02 ", " ", "\t0\n", "+0.02", "00.02", "0.020", ".02", "2E-2"}
 
 type c18State struct {
 	known     *mon.KnownSet
